@@ -71,11 +71,12 @@ PROPS = {
         "assumptions": ["content change instants are taken from the walk itself (pairs of instants 1 ms apart)"],
     },
     "C08": {
-        "parts": [{"pkg": "livesim", "test": "TestVerifC08"}, {"pkg": "receiver", "test": "TestVerifC08R"}],
+        "parts": [{"pkg": "livesim", "test": "TestVerifC08"}, {"pkg": "receiver", "test": "TestVerifC08R"}, {"pkg": "receiver", "test": "TestVerifC08R2"}],
         "clauses": ["C08.a", "C08.b", "C08.c"],
         "level": "model_checking",
         "rule": "41 URL keys x 15 boundary/malformed values + exemplar singly, every key pair x 4x4 values (quick: every 3rd), named hazardous combinations, "
                 "through the full router for 8 endpoints x 3 MPD types; segment-name shapes x representations x extensions; BaseURL indices; methods; /patch, /urlgen, licence POST and /api bodies; "
+                "a stepped ingest session for every kind of configuration; asset directories with unusual names; receiver uploads from a box alphabet and well-formed uploads with one child box missing; "
                 "each request under the vrt runtime (virtual time, loop horizon)",
         "assumptions": ["a recovered panic is recognised by chi Recoverer's empty 500 and replayed on the handler for its call site",
                         "4xx is demanded only for syntactically malformed values of typed keys and the ranges verifyAndFillConfig documents"],
